@@ -260,7 +260,7 @@ class ExprGen:
         hi = self.iexpr(0) if r.random() < 0.7 else ""
         s = lo + ":" + hi
         if r.random() < 0.3:
-            s += ":" + self.iexpr(0)
+            s += ":" + self.iexpr(r.choice([0, 0, 2]))
         return s
 
     def array_ref(self, d, sections=True):
@@ -299,7 +299,8 @@ class ExprGen:
         items = [self.simple_arg(d - 1) for _ in range(r.randint(1, 3))]
         if r.random() < 0.25:
             v = self.env.loopvar()
-            items = ["(%s, %s = %s, %s)" % (items[0], v, self.int_lit().split("_")[0], self.iexpr(0))]
+            items = ["(%s, %s = %s, %s%s)" % (items[0], v, self.int_lit().split("_")[0], self.iexpr(0),
+                                              (", " + self.iexpr(0)) if r.random() < 0.3 else "")]
         body = ", ".join(items)
         if r.random() < 0.2:
             body = r.choice(["integer", "real", "real{+(KIND = +}{-(-}8)", "character(len = 3)"]) + " :: " + body
